@@ -1153,6 +1153,15 @@ Octagonal_Shape<T>::concatenate_assign(const Octagonal_Shape& y) {
     return;
   }
 
+  // If `y' is a (marked) empty octagon, the concatenation is empty too:
+  // the matrix of `y' is meaningless and must not be copied.
+  if (y.marked_empty()) {
+    add_space_dimensions_and_embed(y.space_dim);
+    set_empty();
+    PPL_ASSERT(OK());
+    return;
+  }
+
   // If `*this' is an empty 0-dim space octagon, then it is sufficient
   // to adjust the dimension of the vector space.
   if (space_dim == 0 && marked_empty()) {
